@@ -311,7 +311,7 @@ pub fn specs(tier: &str) -> Vec<ExpSpec> {
             }
             c.base = Arc::new(Base::Bytes(img));
             c.name = format!("{}-total32", c.name);
-            v.push(ExpSpec::new(c, alphabet(512), if th { 4 } else { 3 }));
+            v.push(ExpSpec::new(c, alphabet(512), if th { 4 } else if status == 0 { 3 } else { 2 }));
         }
     }
     // extended boot signature other than 0x29 (0x28: only the volume id is valid; 0x00: none of the three fields): the
